@@ -57,6 +57,9 @@ func gen(r *rand.Rand) WL {
 				o.Val = val
 			case x < 8:
 				o.K = "get"
+				if r.IntN(8) == 0 {
+					o.K = "stats" // a reporting call: Stats().Combined(other cache's stats)
+				}
 			default:
 				o.K = "del"
 			}
@@ -138,6 +141,10 @@ func exec(t *testing.T, w WL, cfg simrt.Config) simh.Outcome {
 	)
 	res := simrt.Run(t, cfg, func(s *simrt.Sim) {
 		c = newCache(w)
+		// a second cache with two entries, only used as the operand of Stats().Combined(...)
+		aux := cache.NewSieve[int, int](4)
+		aux.Put(100, 1)
+		aux.Put(101, 2)
 		solo := len(w.Clients) == 1
 		for ci, ops := range w.Clients {
 			s.Spawn(func() {
@@ -145,6 +152,13 @@ func exec(t *testing.T, w WL, cfg simrt.Config) simh.Outcome {
 					call := s.Seq()
 					var o out
 					switch op.K {
+					case "stats":
+						before := c.Stats().Size()
+						comb := c.Stats().Combined(aux.Stats())
+						if solo && comb.Size() != before+2 && sizeBad == "" {
+							sizeBad = fmt.Sprintf("Stats().Combined reported size %d for caches holding %d and 2 entries", comb.Size(), before)
+						}
+						counters["stats_combined_calls"]++
 					case "put":
 						c.Put(op.Key, op.Val)
 					case "del":
@@ -153,7 +167,9 @@ func exec(t *testing.T, w WL, cfg simrt.Config) simh.Outcome {
 						o.Val, o.Hit = c.Get(op.Key)
 					}
 					ret := s.Seq()
-					hist[ci] = append(hist[ci], porcupine.Operation{ClientId: ci, Input: op, Output: o, Call: int64(call), Return: int64(ret)})
+					if op.K != "stats" {
+						hist[ci] = append(hist[ci], porcupine.Operation{ClientId: ci, Input: op, Output: o, Call: int64(call), Return: int64(ret)})
+					}
 					if solo && sizeBad == "" {
 						if sz := c.Stats().Size(); sz > int64(effCap(w)) || sz < 0 {
 							sizeBad = fmt.Sprintf("after %s(%d): size statistic %d outside [0,%d]", op.K, op.Key, sz, effCap(w))
